@@ -572,14 +572,19 @@ def evaluate(p: Poly, val, cache=None):
     tot = 0.0
     for m, c in p.terms.items():
         v = float(c)
+        dead = False
         for i, e in m:
             a = _ATOM_LIST[i]
             x = cache.get(i)
             if x is None:
                 x = _eval_atom(a, val, cache)
                 cache[i] = x
+            if a.idem and x == 0.0:
+                dead = True          # a Boolean factor that is false selects the other branch: the term is absent, even if
+                break                # another factor is NaN / infinite (select semantics, not 0 * NaN)
             v *= x ** e
-        tot += v
+        if not dead:
+            tot += v
     return tot
 
 
